@@ -247,6 +247,34 @@ func c07body(c *xplore.Ctx) (text string, form string, fs []ev.Finding, skipped 
 	}); p != nil {
 		return wit, spec.Form, []ev.Finding{{Sig: "panic:parse-with-params:" + ev.SigSafe(pos), Witness: wit, Detail: fmt.Sprint(p) + "\n" + st, Case: cs, Rank: rank}}, false
 	}
+	// SetParams replaces the bindings: a parser that was first given other values for the same names (and one more)
+	// must behave exactly like a fresh one
+	{
+		decoy := map[string]interface{}{"zz_decoy": int64(1)}
+		for _, t := range ptoks {
+			if t.K == gram.PARAM {
+				key := t.Text
+				if key == "\x00" {
+					key = ""
+				}
+				decoy[key] = "decoy"
+			}
+		}
+		var q3 *influxql.Query
+		var err3 error
+		if p, st := try(func() {
+			ps := influxql.NewParser(strings.NewReader(text))
+			ps.SetParams(decoy)
+			ps.SetParams(params)
+			q3, err3 = ps.ParseQuery()
+		}); p != nil {
+			return wit, spec.Form, []ev.Finding{{Sig: "panic:parse-after-second-SetParams:" + ev.SigSafe(pos), Witness: wit, Detail: fmt.Sprint(p) + "\n" + st, Case: cs, Rank: rank}}, false
+		}
+		if (err1 == nil) != (err3 == nil) || (err1 == nil && !astx.Equal(astx.Denoted, q1, q3)) {
+			return wit, spec.Form, []ev.Finding{{Sig: "earlier-SetParams-shows-through:" + ev.SigSafe(pos), Witness: wit,
+				Detail: fmt.Sprintf("fresh parser: %v / %v; parser that was first given %v and then the real bindings: %v / %v", q1, err1, decoy, q3, err3), Case: cs, Rank: rank}}, false
+		}
+	}
 	if !bindable {
 		if err1 == nil {
 			return wit, spec.Form, []ev.Finding{{Sig: "unbindable-parameter-accepted:" + ev.SigSafe(pos), Witness: wit, Detail: "parse succeeded: " + q1.String(), Case: cs, Rank: rank}}, false
